@@ -776,6 +776,65 @@ def falsy_value_pairs():
     return items
 
 
+# anchored CONTAINERS defined and aliased only inside sequences (the token model above has scalar leaves only): raw YAML,
+# expectation written out per policy: (lhs, rhs, conflict?, {policy: plain merged data under hashes=deep, arrays=all})
+_A1, _A2 = {"a": 1}, {"a": 2}
+CONTAINER_CASES = [
+    ("- &m {a: 1}\n- *m\n", "- &m {a: 2}\n- *m\n", True,
+     {"left": [_A1, _A1, _A1, _A1], "right": [_A2, _A2, _A2, _A2], "rename": [_A1, _A1, _A2, _A2]}),
+    ("s: [&m {a: 1}, *m]\n", "t: [&m {a: 2}, *m]\n", True,
+     {"left": {"s": [_A1, _A1], "t": [_A1, _A1]}, "right": {"s": [_A2, _A2], "t": [_A2, _A2]}, "rename": {"s": [_A1, _A1], "t": [_A2, _A2]}}),
+    ("s: [&m [1], *m]\n", "t: [&m [2], *m]\n", True,
+     {"left": {"s": [[1], [1]], "t": [[1], [1]]}, "right": {"s": [[2], [2]], "t": [[2], [2]]}, "rename": {"s": [[1], [1]], "t": [[2], [2]]}}),
+    ("s: [&m {a: 1}, *m]\n", "t: [&m {a: 1}, *m]\n", False,
+     {"stop": {"s": [_A1, _A1], "t": [_A1, _A1]}, "left": {"s": [_A1, _A1], "t": [_A1, _A1]}, "right": {"s": [_A1, _A1], "t": [_A1, _A1]},
+      "rename": {"s": [_A1, _A1], "t": [_A1, _A1]}}),
+]
+
+
+def container_anchor_cases(coll):
+    for ci, (lt, rt, conflict, want) in enumerate(CONTAINER_CASES):
+        for pol in ANCHOR_POLICIES:
+            inp = {"check": "container-anchors-in-sequences", "lhs_yaml": lt, "rhs_yaml": rt, "anchors": pol}
+            log = _logger()
+            merger = Merger(log, gen.editor().load(lt), MergerConfig(log, SimpleNamespace(anchors=pol, hashes="deep", arrays="all")))
+            outcome, err = "accepted", None
+            try:
+                merger.merge_with(gen.editor().load(rt))
+            except MergeException as ex:
+                outcome = "refused"
+            except Exception as ex:      # noqa
+                outcome, err = "crash", "%s@%s" % (type(ex).__name__, _frame(ex.__traceback__))
+            coll.case(("container-anchors", ci, pol, outcome))
+            if outcome == "crash":
+                coll.witness("C10/container-anchor-in-sequence/crash/%s" % err, "a non-merge exception", inp, err, "a merge or a refusal")
+                continue
+            if pol == "stop" and conflict:
+                if outcome != "refused":
+                    coll.witness("C10/container-anchor-in-sequence/stop/accepted-a-conflict",
+                                 "stop: the same anchor name holds different containers, the merge goes through", inp, outcome, "MergeException")
+                continue
+            if outcome == "refused":
+                coll.witness("C10/container-anchor-in-sequence/%s/refused" % pol, "a merge this policy defines is refused", inp, outcome, want[pol])
+                continue
+            buf = io.StringIO()
+            try:
+                merger.prepare_for_dump(gen.editor(), "")
+                gen.editor().dump(merger.data, buf)
+                text = buf.getvalue()
+                dup, undef = text_anchor_faults(text)
+                faults = (["duplicate-anchor"] if dup else []) + (["undefined-alias"] if undef else [])
+                back = gen.plain(gen.editor().load(text)) if not faults else None
+            except Exception as ex:      # noqa
+                text, faults, back = buf.getvalue(), ["dump-or-reload-raises-%s" % type(ex).__name__], None
+            if faults:
+                coll.witness("C10/container-anchor-in-sequence/%s/dump-%s" % (pol, faults[0]),
+                             "the dump of the merged document has an anchor fault", inp, {"faults": faults, "dump": text[:200]}, "a loadable dump")
+            elif back != want[pol]:
+                coll.witness("C10/container-anchor-in-sequence/%s/data" % pol, "the aliases do not read what the policy says", inp,
+                             {"data": back, "dump": text[:200]}, want[pol])
+
+
 def cli_policy_sources(coll):
     """The anchor policy reaches the merge from the command line OR from the INI file's [defaults] section: yaml-merge with
     `[defaults] anchors = P` (and no --anchors) does what `--anchors=P` does, and --anchors outranks the file."""
@@ -819,6 +878,7 @@ def run(tier="quick", seed=0, jobs=None):
     cfg = TIERS[tier]
     coll = harness.Collector(max_samples=8)
     cli_policy_sources(coll)
+    container_anchor_cases(coll)
     policies = [(a, mp) for a in ANCHOR_POLICIES for mp in cfg["merge_policies"]]
     items, counts = enumerated_pairs(cfg)
     items = items + falsy_value_pairs()
@@ -868,6 +928,11 @@ def run(tier="quick", seed=0, jobs=None):
 
 def replay(inp):
     """Re-run one witness input natively; the witness dict if it still fails, else None."""
+    if inp.get("check") == "container-anchors-in-sequences":
+        coll = harness.Collector()
+        container_anchor_cases(coll)
+        ws = [w for w in coll.witnesses.values() if any(i.get("anchors") == inp.get("anchors") and i.get("lhs_yaml") == inp.get("lhs_yaml") for i in w["inputs"])]
+        return ws[0] if ws else None
     if inp.get("check") == "cli-policy-source":
         coll = harness.Collector()
         cli_policy_sources(coll)
